@@ -183,6 +183,10 @@ func (ex *Exec) havoc(fn *ssa.Function, args []Value) (Value, bool) {
 	return tp, true
 }
 
+// RunBody interprets fn's SSA body directly, bypassing stubs registered under its name (used by
+// harness wrappers that check an invariant at every call and then run the real function).
+func (ex *Exec) RunBody(fn *ssa.Function, args []Value) Value { return ex.run(fn, args, nil) }
+
 func (ex *Exec) run(fn *ssa.Function, args []Value, free []Value) (ret Value) {
 	ex.depth++
 	if ex.depth > ex.Stats.MaxDepth {
